@@ -362,6 +362,51 @@ func runCheck(cfg *RunConfig) int {
 			}
 		}
 	}
+	// C14: every statically found source of nondeterminism must have been exercised in permute mode
+	if cfg.Property == "C14" {
+		covered := map[string]int{}
+		for _, h := range runs {
+			for site, n := range h.mapRanges {
+				covered[site] = n
+			}
+		}
+		for _, s := range prog.scanNondet() {
+			switch {
+			case s.Kind == "map-range":
+				ok := false
+				for site, n := range covered {
+					if strings.Contains(site, s.Pos) && n >= 2 {
+						ok = true
+					}
+				}
+				if ok {
+					fmt.Printf("  nondeterminism source covered: %s %s\n", s.Kind, s.Pos)
+				} else {
+					fmt.Printf("  UNCOVERED nondeterminism source: %s %s in %s (no harness iterated it with >= 2 entries in permute mode)\n", s.Kind, s.Pos, s.Func)
+					if exit == 0 {
+						exit = 2
+					}
+				}
+			case s.Kind == "call:time.Now" && strings.HasSuffix(s.Func, ".BeginBlocker"):
+				fmt.Printf("  nondeterminism source exempt: %s %s (telemetry timing only; the value is passed to telemetry.ModuleMeasureSince and flows nowhere else)\n", s.Kind, s.Pos)
+			case s.Kind == "go" && strings.Contains(s.Pos, ".pb.gw.go"):
+				fmt.Printf("  nondeterminism source exempt: %s %s (generated gRPC gateway client plumbing, not state machine code)\n", s.Kind, s.Pos)
+			default:
+				fmt.Printf("  UNCOVERED nondeterminism source: %s %s in %s\n", s.Kind, s.Pos, s.Func)
+				if exit == 0 {
+					exit = 2
+				}
+			}
+		}
+	}
+	if cfg.Property == "C02" {
+		for _, s := range prog.scanBankCalls() {
+			fmt.Printf("  COIN-CREATING/DESTROYING CALL in module code: %s %s in %s\n", s.Kind, s.Pos, s.Func)
+			if exit == 0 {
+				exit = 2
+			}
+		}
+	}
 	if encodingMismatch > 0 && exit == 0 {
 		exit = 2
 	}
